@@ -1118,6 +1118,8 @@ def b_all(ex, args, kwargs, e):
 
 
 def _anyall(ex, v, is_any, e):
+    if isinstance(v, C) and isinstance(v.ty, SetOf):
+        v = Iter(v)         # any(xs) / all(xs) over a collection itself
     if isinstance(v, Iter) and not isinstance(v.base, (list, tuple, set, frozenset)):
         src = ex.world.iter_source(ex, v.base if not isinstance(v.base, Iter) else ex.materialize(v.base), e.lineno)
         if src is None or isinstance(src.ty, SeqOf):
